@@ -3,8 +3,11 @@ package main
 import (
 	"encoding/json"
 	"fmt"
+	"go/types"
 	"os"
+	"reflect"
 	"sort"
+	"strings"
 )
 
 // RunReplay prints a replay file and re-runs the solver on the stored failing queries.
@@ -80,3 +83,53 @@ func RunList(args []string) int {
 	}
 	return 0
 }
+
+// shapeLemmas turns the shape specifications into closed goals: the declaration found in the loaded program, brought
+// to a normal form, equals the specified one. They run through the same pipeline as every other obligation.
+func shapeLemmas(prog *Program, cs *ContractSet) []*Lemma {
+	norm := func(opts string) string {
+		var parts []string
+		for _, p := range strings.Split(opts, ",") {
+			if p = strings.TrimSpace(p); p != "" {
+				parts = append(parts, p)
+			}
+		}
+		sort.Strings(parts)
+		return strings.Join(parts, ",")
+	}
+	var out []*Lemma
+	for _, sp := range cs.Shapes {
+		short := sp.Type[strings.LastIndex(sp.Type, ".")+1:]
+		var st *types.Struct
+		if t := prog.NamedType(sp.Type); t != nil {
+			st, _ = t.Underlying().(*types.Struct)
+		}
+		for _, ln := range sp.Lines {
+			actual, want := "<no such struct type>", ln.Want
+			name := "shape." + short + "." + ln.Kind
+			if st != nil {
+				switch ln.Kind {
+				case "order":
+					var fs []string
+					for i := 0; i < st.NumFields(); i++ {
+						fs = append(fs, st.Field(i).Name())
+					}
+					actual = strings.Join(fs, " ")
+				default:
+					name += "." + ln.Field
+					actual = "<no such field>"
+					for i := 0; i < st.NumFields(); i++ {
+						if st.Field(i).Name() == ln.Field {
+							actual = norm(reflect.StructTag(st.Tag(i)).Get(ln.Kind))
+						}
+					}
+					want = norm(want)
+				}
+			}
+			out = append(out, &Lemma{Name: name, Props: sp.Props, File: sp.File, Pkg: sp.Pkg,
+				Goal: fmt.Sprintf("(= %s %s)", smtStr(actual), smtStr(want))})
+		}
+	}
+	return out
+}
+
